@@ -159,16 +159,20 @@ def run(ctx):
             dress(m, rng)
             ctx.count("extreme_atoms", sum(1 for a in m.atoms if a.hcount is not None))
         else:
-            m = random_tree_mol(rng, rng.choice([3, 6, 10, 20, 40]), ncomp=rng.choice([1, 1, 2, 3, 11]),
+            m = random_tree_mol(rng, rng.choice([3, 6, 10, 20, 40] * 6 + [150, 400]), ncomp=rng.choice([1, 1, 2, 3, 11, 40]),
                                 p_ring=rng.choice([0.05, 0.15, 0.4]), table=table)
         if not m.atoms:
             continue
         k = rng.getrandbits(48)
         dab = rng.choice([0, 0, 0, 0.5, 1.0])     # non-standard but accepted: ring digits written after branches
         span = rng.choice(["dfs", "dfs", "random"])
-        s1, _, _, _ = spell(m, random.Random(k), variants=False, explicit_single=0.05, digits_after_branch=dab, spanning=span)
-        s2, _, _, _ = spell(m, random.Random(k), variants=True, explicit_single=0.05, vrng=random.Random(k ^ 0x5DEECE66D),
-                            digits_after_branch=dab, spanning=span)
+        try:
+            s1, _, _, _ = spell(m, random.Random(k), variants=False, explicit_single=0.05, digits_after_branch=dab, spanning=span)
+            s2, _, _, _ = spell(m, random.Random(k), variants=True, explicit_single=0.05, vrng=random.Random(k ^ 0x5DEECE66D),
+                                digits_after_branch=dab, spanning=span)
+        except ValueError:
+            ctx.count("too_many_open_labels")       # SMILES has 100 ring labels; this spelling would need more at once
+            continue
         try:
             a1, a2 = read_smiles(s1), read_smiles(s2)
             same = (len(a1.atoms) == len(a2.atoms) and a1.bonds == a2.bonds and
